@@ -173,6 +173,7 @@ def systematic_jobs(tier, seed, ctx):
                         {"op": "generate", "src": src, "perm": 0, "faults": [], "recover": True},
                         {"op": "postprocess", "perm": k, "faults": []},
                         {"op": "probe"}]))
+    jobs.append(_job(seed, "sys:printers", ENV0, [{"op": "use_printers"}, {"op": "generate", "src": "symplyphysics", "perm": 0, "faults": []}, {"op": "postprocess", "perm": 0, "faults": []}, {"op": "probe"}]))
     jobs.append(_job(seed, "sys:locale", ENVS[1], [{"op": "generate", "src": "symplyphysics", "perm": 0, "faults": [], "locale": "ascii"}, {"op": "postprocess", "perm": 0, "faults": []}, {"op": "probe"}]))
     jobs.append(_job(seed, "sys:repeat", ENV0, [{"op": "generate", "src": "symplyphysics/laws/kinematics", "perm": 0, "faults": []}, {"op": "probe"}, {"op": "generate", "src": "symplyphysics/laws/kinematics", "perm": 5, "faults": [], "stale": True}, {"op": "postprocess", "perm": 0, "faults": []}, {"op": "probe"}]))
     return jobs
@@ -248,6 +249,8 @@ def generate(seed: int, run: int, tier: str) -> dict:
                 vs = ops[-1]["vseed"]
                 ops.append({"op": "virtual", "vseed": vs, "edit": rng.randrange(1, 10**6), "keep_output": True, "perm": rng.randrange(0, 10**6), "faults": []})
         ops.append({"op": "probe"})
+    if rng.random() < 0.2:
+        ops.insert(0, {"op": "use_printers"})
     if rng.random() < 0.25:
         # the process runs under a non-UTF-8 locale (LC_ALL=C): files opened without an explicit
         # encoding would be ASCII
@@ -309,6 +312,17 @@ def _probe(vios: list, where: str) -> str:
         vios.append(V("flag", "evaluate", f"global_parameters.evaluate is {global_parameters.evaluate!r} {where}").v)
     if global_parameters.distribute is not True or getattr(global_parameters, "exp_is_pow", False) is not False:
         vios.append(V("flag", "other-parameters", f"global parameters distribute/exp_is_pow changed {where}").v)
+    # the library's own switches, used the way the generator uses them, end with evaluation on
+    from symplyphysics.core import processors  # pylint: disable=import-outside-toplevel
+    processors.reset_sympy_evaluation()
+    if global_parameters.evaluate is not True:
+        vios.append(V("flag", "reset-after-generation", f"reset_sympy_evaluation() leaves evaluation off {where}").v)
+        global_parameters.evaluate = True
+    processors.disable_sympy_evaluation()
+    processors.reset_sympy_evaluation()
+    if global_parameters.evaluate is not True:
+        vios.append(V("flag", "disable-reset-after-generation", f"disable_sympy_evaluation(); reset_sympy_evaluation() leaves evaluation off {where}").v)
+        global_parameters.evaluate = True
     x = sp.Symbol("probe_x")
     r = x + x
     out.append(str(r))
@@ -1003,6 +1017,19 @@ def child_run(job: dict) -> dict:  # pylint: disable=too-many-branches,too-many-
             clear_cache()
             faults["clear_cache"] += 1
             prehist.append("cc")
+        elif k == "use_printers":
+            import sympy as sp  # pylint: disable=import-outside-toplevel
+            from symplyphysics import symbols as sy, print_expression  # pylint: disable=import-outside-toplevel
+            from symplyphysics.docs.printer_code import code_str  # pylint: disable=import-outside-toplevel
+            from symplyphysics.docs.printer_latex import latex_str  # pylint: disable=import-outside-toplevel
+            e = sp.Eq(sy.force, sy.mass * sy.acceleration / 2)
+            for call in (lambda: latex_str(e, mul_symbol="dot"), lambda: latex_str(e, mul_symbol="times", fold_short_frac=True), lambda: code_str(e, order="none"), lambda: print_expression(e), lambda: latex_str(e), lambda: code_str(e)):
+                try:
+                    call()
+                except Exception:  # pylint: disable=broad-except
+                    pass
+            faults["printers_used_before"] = faults.get("printers_used_before", 0) + 1
+            # not recorded in `prehist`: printing creates no objects, the generation history is unchanged
         elif k == "import_tree":
             names = sorted(expected_pages(op["src"], ["core"]))
             done = 0
@@ -1106,7 +1133,7 @@ def child_run(job: dict) -> dict:  # pylint: disable=too-many-branches,too-many-
             raise ValueError(k)
         events.append([step, k, outcome])
     fired_total = sum(v for kk, v in faults.items() if kk.endswith("_fail"))
-    nontrivial = bool(fired_total or faults["list_shuffle"] or faults["jump"] or faults["import_before"] or faults["repeat"] or faults["stale_output"] or faults.get("virtual_tree"))
+    nontrivial = bool(fired_total or faults.get("printers_used_before") or faults["list_shuffle"] or faults["jump"] or faults["import_before"] or faults["repeat"] or faults["stale_output"] or faults.get("virtual_tree"))
     seen = set()
     uniq = []
     for v in vios:
